@@ -1,17 +1,18 @@
-SPECIFICATION Spec
+SPECIFICATION FairSpec
 CONSTANTS
   Keyspaces = {"k1"}
   MaxVer = 2
-  AbsentVers = {}
+  AbsentVers = {2}
   NoTableVers = {}
-  Plans <- PlansRoute
+  Plans <- PlansMeta2
   MaxFail = 1
-  MaxDown = 1
+  MaxDown = 0
   MaxRoute = 1
   PkFromPrepare = FALSE
   TakeAll = FALSE
-  KsFailureIsNotExist = TRUE
-  DefectNoConnCached = TRUE
+  KsFailureIsNotExist = FALSE
+  DefectNoConnCached = FALSE
   Variant = "ok"
 INVARIANTS ReachMarks TypeOK NoStaleRead StaleHasPendingEvent FailedNotCached ErrorIsOwn NotExistOnlyIfAbsent SharedCache RouteFailedNotCached RouteSingleFlight RouteBounded RouteFromSchema
+PROPERTY Terminates
 CHECK_DEADLOCK FALSE
